@@ -99,8 +99,42 @@ def classify(clause, v, desc):
             return 'panic:Zerv::from(SemVer).expect'
         return 'panic'
     if clause == 'silent_number_change':
-        return 'number_above_u32_silently_moved'
+        return 'u32_overflow:' + overflow_role(v.get('a'), desc)
     return clause
+
+
+def overflow_role(a, desc):
+    """which number exceeds u32 and what happened to it in the PEP 440 rendering (role-based key)"""
+    if not a:
+        return 'unknown'
+    pre = a['pre'] or []
+    roles = []
+    for k, name in enumerate(('major', 'minor', 'patch')):
+        if a[name] > U32:
+            roles.append(('core', a[name]))
+    i = 0
+    while i + 1 < len(pre):
+        lab = ''.join(map(chr, pre[i]['s']))
+        if pre[i + 1].get('u', 0) > U32:
+            roles.append((lab if lab in ('epoch', 'post', 'dev') else 'pre_number', pre[i + 1]['u']))
+        i += 2
+    for b in a['build'] or []:
+        if b.get('u', 0) > U32:
+            roles.append(('build', b['u']))
+    if not roles:
+        return 'none_above_u32'
+    m = __import__('re').search(r'pep=(\S+)', desc)
+    pep = m.group(1) if m else ''
+    out = []
+    for role, n in roles:
+        if str(n) not in pep:
+            fate = 'dropped_or_altered'
+        elif '+' in pep and str(n) in pep.split('+', 1)[1] and role != 'build':
+            fate = 'moved_to_local'
+        else:
+            fate = 'kept_elsewhere'
+        out.append('%s:%s' % (role, fate))
+    return ','.join(sorted(set(out)))
 
 
 def main():
